@@ -103,3 +103,64 @@ mtext("C07",
       "trusted: multiset model and slot-numbering audit; sim heap",
       "deterministic simulation: seeded operation histories vs reference model inside sim heap (degenerate)",
       "DESIGN.md 4.C07")
+
+V_HASH = {"rel": 0.8, "asan": 0.2}
+HASH_STUBS = ["hash functions (harness-owned h_div/h_mul/h_zero/h_half/h_tab: counted, logged, able to return out-of-range values on a chosen call)"]
+RULE_HASH = ("one evaluation = one seeded plan (1-2 tables; resize requests followed by bursts of 0..B+2 keyed operations so that every stage of the "
+             "incremental sweep is hit; enumeration/clear/forced rehash/shrink/swap interleaved; realloc failure/move policy from the plan) executed against the real "
+             "hash.c with the reference model checked after every operation and a non-perturbing checkpoint/lookup-everything/restore audit; "
+             "distinct = distinct plan hash; non-trivial = the run held >= 2 live elements at some point")
+check("C03", "exploration",
+      [dict(world="hash", mode=3, variants=V_HASH, quick=80000, thorough=8000000)],
+      RULE_HASH, ["src/hash.c", "include/cstl/hash.h"], stubs=HASH_STUBS,
+      required_probes=["insert_mid_rehash", "find_mid_rehash", "erase_mid_rehash", "resize_while_pending", "resize_grow", "resize_shrink",
+                       "resize_same_size_new_fn", "resize_back_while_pending", "resize_alloc_fail_fired", "resize_enomem", "forced_rehash_while_pending",
+                       "shrink_reallocated", "swap", "find_accept_jth", "find_reject_all_dupes", "erase_previously_erased", "erase_never_inserted", "audit_full"])
+check("C04", "exploration",
+      [dict(world="hash", mode=4, variants=V_HASH, quick=80000, thorough=8000000)],
+      RULE_HASH, ["src/hash.c", "include/cstl/hash.h"], stubs=HASH_STUBS,
+      required_probes=["foreach_mid_rehash", "foreach_grow_pending", "foreach_const_mid_rehash", "foreach_const_grow_pending", "clear_mid_rehash",
+                       "clear_grow_pending", "foreach_erase_and_free", "foreach_cancel", "foreach_const_cancel", "reuse_after_clear", "clear"])
+check("C19", "exploration",
+      [dict(world="hash", mode=19, variants=V_HASH, quick=80000, thorough=8000000)],
+      RULE_HASH, ["src/hash.c", "include/cstl/hash.h"], stubs=HASH_STUBS,
+      required_probes=["resize_while_pending", "resize_grow", "resize_shrink", "resize_same_size_new_fn", "resize_back_while_pending",
+                       "c19_rehash_completed_by_keyed_ops"],
+      assumptions=["completion and 'pending' are observed black-box through the number of hash-function consultations of one lookup under checkpoint/restore",
+                   "the three-buckets-per-operation clause is checked through a call-count bound (8 + 6*(longest chain+1)), not by identifying source buckets"])
+check("C17", "fault_enumeration",
+      [dict(world="hash", mode=17, variants={"rel": 0.5, "asan": 0.5}, quick=60000, thorough=4000000)],
+      RULE_HASH + "; in this mode a fault 'the caller's hash function returns m, m+1 or SIZE_MAX on its j-th call within this operation' rides on a fraction of the operations",
+      ["src/hash.c", "include/cstl/hash.h"], stubs=HASH_STUBS,
+      required_probes=["c17_bad_value_consumed", "c17_bad_at_call_1", "c17_bad_at_call_2", "c17_bad_at_call_3plus", "c17_range_samples"],
+      assumptions=["the range clause for cstl_hash_div/cstl_hash_mul is SAMPLED (boundary and random keys and table sizes), not decided: exhaustive enumeration of the float grid is outside this technique"])
+
+mtext("C03",
+      "Seeded histories of insert/find/erase/resize (grow, shrink, new function, while pending)/rehash/shrink_to_fit/swap with the incremental rehash running as background work: "
+      "after every operation size and an exactly-once enumeration are checked, and a checkpoint/restore audit looks up every live element (visit function accepting exactly it) and dead keys without advancing the rehash. "
+      "Find's offer protocol (each matching element at most once, accepted one returned, all offered when none accepted) and erase of non-members are checked per call. "
+      "Realloc failure / always-move / in-place policies come from the plan. Sampling; the small-scope closure in the property text is not claimed.",
+      "trusted: membership model, harness hash functions, checkpoint/restore of table struct + library blocks + elements (no private field is read for a verdict); glibc realloc semantics",
+      "deterministic simulation: background rehash interleaved with foreground ops, seeded histories + allocator fault injection vs reference model",
+      "DESIGN.md 4.C03")
+mtext("C04",
+      "Same world, enumeration-heavy: foreach (count / stop at j / erase-and-free the visited element), foreach_const and clear are issued at every stage of grow and shrink rehashes "
+      "(reach probes count grow-pending hits), each checked for exactly-once delivery against the live set; clear must release the bucket array exactly once and the table must work again after a fresh resize. "
+      "foreach_const additionally runs inside every per-step audit. Sampling, not closure.",
+      "trusted: live-set model, sim heap accounting of the bucket block, poison+free in callbacks",
+      "deterministic simulation: enumeration while background rehash is pending, callback faults (erase+free, cancellation), seeded histories vs reference model",
+      "DESIGN.md 4.C04")
+mtext("C19",
+      "Bounded liveness and placement of the background rehash, observed black-box through harness-owned hash functions: load() == size/n right after every satisfiable resize (incl. while pending and back to the previous size); "
+      "a settled table consults the hash function exactly once per keyed operation with the requested (n, function); a pending rehash finishes within B keyed operations (B = buckets in force at the resize, restarted at every resize call); "
+      "no keyed operation makes more than 8+6*(longest chain+1) consultations. Seeded histories with spread keys; sampling.",
+      "trusted: call counting in harness hash functions; pending-probe = one lookup under checkpoint/restore; the at-most-three-buckets clause is only checked via the call-count bound",
+      "deterministic simulation: bounded liveness of background work, counted in keyed operations after the last resize request",
+      "DESIGN.md 4.C19")
+mtext("C17",
+      "Fail-stop clause by fault injection: the harness hash function returns m, m+1 or SIZE_MAX on its j-th call inside insert/find/erase/resize/rehash/shrink_to_fit/foreach (so under the current geometry, the pending geometry, "
+      "and while relocating chains); the operation must abort, and a byte-for-byte snapshot taken at the bad return (table object, bucket array, elements) must be unchanged at the abort; ASan variant for out-of-bounds reads. "
+      "Range clause of the built-ins: sampled at boundary and random (k, m), and monitored in every hash run -- not decided.",
+      "trusted: snapshot comparison, abort trap; range clause only sampled",
+      "deterministic simulation with fault injection: misbehaving hash callback at chosen call ordinals, fail-stop + no-write oracle",
+      "DESIGN.md 4.C17")
